@@ -106,6 +106,52 @@ def run(ctx):
     run_histories_fmt(lt, hs, ctx)
     streams.append(lt)
 
+    # ... nor on the transport's flow control: asyncio may call pause_writing() (also from inside transport.write()) and
+    # resume_writing() at any time; whether an implementation answers at once or holds replies back while paused, over
+    # the whole history every unit is answered exactly as the handshake says, once
+    fc = Stream("flow-control-callbacks")
+    from harness import impl, oracles
+    for _ in range(2500 if ctx.thorough else 300):
+        evs, kinds = history(r, r.choice([3, 5, 8, 13]))
+        fmt = r.choice(["astm", "lis2a"])
+        seq_ = []
+        paused = False
+        for e in evs + gens.PROBE:
+            if r.random() < 0.25:
+                seq_.append(("R",) if paused else ("P",))
+                paused = not paused
+            seq_.append(e)
+        seq_.append(("R",))
+        c = impl.Conn(fmt=fmt)
+        c.t.protocol = c.p
+        c.t.pause_at = set(r.sample(range(1, 40), r.choice([0, 2, 4])))
+        ref = oracles.RefReceiver(fmt)
+        expected, raised_other = [], None
+        for e in seq_:
+            if e[0] == "d":
+                exp = ref.expect(e)
+                if exp["reply"]:
+                    expected.append({"ACK": b"\x06", "NAK": b"\x15"}[exp["reply"]])
+            elif e[0] in ("P", "R") and len(c.t.writes) in c.t.pause_at:
+                pass
+            ob = c.event(e)
+            if e[0] in ("P", "R") and ob["exc"]:
+                raised_other = ob["exc"]
+            if e[0] == "R":
+                # a transport that paused inside write() resumes once its buffer has drained
+                for _k in range(3):
+                    c.event(("R",))
+        case = {"format": fmt, "events": [gens.ev_hex(e) if e[0] == "d" else e[0] for e in seq_], "pause_inside_write_no": sorted(c.t.pause_at)}
+        fc.case(case, nontrivial=bool(c.t.pause_at))
+        if raised_other:
+            fc.fail(case, "a flow-control callback raised %s" % raised_other, "flow-control/raises")
+        elif c.t.writes != expected:
+            fc.fail(dict(case, replies=[w.hex() for w in c.t.writes], expected=[w.hex() for w in expected]),
+                    "over the whole history the peer got %d replies, the handshake calls for %d%s" % (
+                        len(c.t.writes), len(expected), "" if len(c.t.writes) != len(expected) else " (other ones)"),
+                    "flow-control/replies")
+    streams.append(fc)
+
     # the reply depends only on the unit and on whether a transfer is open - not on how much time has passed: the same
     # kind of sequences with pauses anywhere below the inactivity timeout between the units (virtual clock)
     from harness.props import C05
